@@ -77,7 +77,8 @@ def optimize_contractions(term: Term, target_indices: str | None = None,
         # - trace
         return [Contraction(indices=tuple(relevant_obj_indices),
                             names=tuple(relevant_obj_names),
-                            term_target_indices=target_indices)]
+                            term_target_indices=target_indices,
+                            external_indices=tuple())]
     # lazily find the contraction schemes
     contraction_schemes = _optimize_contractions(
         relevant_obj_names=tuple(relevant_obj_names),
@@ -148,17 +149,21 @@ def _optimize_contractions(relevant_obj_names: tuple[str],
     for group in connected_groups:
         contr_indices = tuple(relevant_obj_indices[pos] for pos in group)
         contr_names = tuple(relevant_obj_names[pos] for pos in group)
+        # the objects that are not part of the contraction and their indices
+        remaining_pos = [pos for pos in range(len(relevant_obj_names))
+                         if pos not in group]
+        external_indices = {
+            idx for pos in remaining_pos for idx in relevant_obj_indices[pos]
+        }
         contraction = Contraction(indices=contr_indices, names=contr_names,
-                                  term_target_indices=target_indices)
+                                  term_target_indices=target_indices,
+                                  external_indices=external_indices)
         # if the contraction is not an outer contraction we have to check
         # the dimensionality of the intermediate tensor
         if max_itmd_dim is not None and \
                 contraction.target != target_indices and \
                 len(contraction.target) > max_itmd_dim:
             continue
-        # remove the contracted names and indices
-        remaining_pos = [pos for pos in range(len(relevant_obj_names))
-                         if pos not in group]
         # the group is not closed: an index that is summed in the contraction
         # still appears on one of the remaining objects
         if any(idx in relevant_obj_indices[pos]
@@ -325,4 +330,5 @@ def unoptimized_contraction(term: Term, target_indices: str | None = None,
         contracted.update(idx for idx in indices if idx not in target_indices)
     assert len(relevant_obj_indices) == len(relevant_obj_names)
     return [Contraction(indices=relevant_obj_indices, names=relevant_obj_names,
-                        term_target_indices=target_indices)]
+                        term_target_indices=target_indices,
+                        external_indices=tuple())]
